@@ -5,5 +5,5 @@ cd "$(dirname "$0")"
 export GOFLAGS=-mod=mod GOPROXY=off GOSUMDB=off GOTOOLCHAIN=local
 mkdir -p bin .work evidence replays
 (cd sim && go1.26.8 build -o ../bin/vcheck ./cmd/vcheck)
-./bin/vcheck build plain race
+./bin/vcheck build plain race yield
 echo "setup ok"
